@@ -17,9 +17,6 @@ def check_sorter(cfg, db, chk, builder_pat):
     f = db.one(r"^gix_features::fs::walkdir::walkdir_sorted_new$")
     naive = [c for c in f.calls() if c.is_(NAIVE)]
     custom = [c for c in f.calls() if c.is_(builder_pat)]
-    chk.ob("directory-aware-sibling-order", "%s: walker gets a custom comparator" % cfg, bool(custom) and not naive,
-           "walker is ordered by %s: siblings sorted by bare file name put `a/b` before `a-b` although `a-b` < `a/b` as full names" % ([c.name.split("::")[-1] for c in naive] or "nothing"),
-           "%s:%d" % (f.file, f.line), key="dir-aware|%s|builder" % cfg)
     # closure tree + gix_features::fs helpers reachable
     scope = {g.key for g in db.by_crate["gix_features"]}
     reach = db.reachable([f.key], stop=lambda n: n not in scope)
@@ -43,9 +40,18 @@ def check_sorter(cfg, db, chk, builder_pat):
                 for op in __import__("gx.facts", fromlist=["x"]).rvalue_operands(rv):
                     if op.get("v") == 47 and op.get("ty") == "u8":
                         slash = True
-    chk.ob("directory-aware-sibling-order", "%s: comparator consults is_dir" % cfg, isdir, "", "%s:%d" % (f.file, f.line), key="dir-aware|%s|is_dir" % cfg)
-    chk.ob("directory-aware-sibling-order", "%s: comparator uses b'/'" % cfg, slash, "", "%s:%d" % (f.file, f.line), key="dir-aware|%s|slash" % cfg)
-    chk.ob("directory-aware-sibling-order", "%s: comparator compares the common prefix first" % cfg, prefix_first, "", "%s:%d" % (f.file, f.line), key="dir-aware|%s|prefix" % cfg)
+    ok = bool(custom) and not naive and isdir and slash and prefix_first
+    why = []
+    if naive or not custom:
+        why.append("the walker is ordered by %s, i.e. siblings by bare file name: `a/b` is yielded before `a-b` although `a-b` < `a/b` as full names" % ([c.name.split("::")[-1] for c in naive] or "no custom comparator"))
+    else:
+        if not isdir:
+            why.append("comparator does not consult is_dir")
+        if not slash:
+            why.append("comparator does not use b'/'")
+        if not prefix_first:
+            why.append("comparator does not compare the common prefix first")
+    chk.ob("directory-aware-sibling-order", "%s: walkdir_sorted_new" % cfg, ok, "; ".join(why), "%s:%d" % (f.file, f.line), key="dir-aware|%s|walkdir_sorted_new" % cfg)
     chk.count("%s: comparator functions examined" % cfg, len(fns))
 
 
